@@ -91,11 +91,13 @@ PLANS = {
     "C07": plan(Q07, scale(Q07, 40),
                 "at least one restart request (Addr::restart or Context::restart) was accepted",
                 ["C07.R1.handles_survive", "C07.R2.incarnation_of_message", "C07.R3.restart_count", "C07.R3.strategy_model",
-                 "C07.R3.state_carried_or_reset", "C07.R3.non_restartable_ignores", "C07.R3.non_restartable_timers_unaffected", "C07.R4.started_error_fails", "C07.R5.old_timers_silent"]),
+                 "C07.R3.state_carried_or_reset", "C07.R3.non_restartable_ignores", "C07.R3.non_restartable_timers_unaffected", "C07.R4.started_error_fails", "C07.R5.old_timers_silent"],
+                mt=[('restart', 480)], mt_required=['L2:C07.R2.incarnation_of_message', 'L2:C07.R3.strategy_model']),
     "C10": plan(Q10, scale(Q10, 40),
                 "a periodic timer delivered at least twice, or an actor terminated while its timers were pending",
                 ["C10.R1.not_before_period", "C10.R2.exact_schedule", "C10.R3.delayed_at_most_once", "C10.R4.nothing_after_end",
-                 "C10.R5.timers_do_not_prolong", "C10.R6.timer_tasks_end"]),
+                 "C10.R5.timers_do_not_prolong", "C10.R6.timer_tasks_end"],
+                mt=[('timers', 480)], mt_required=['L2:C10.R1.not_before_period', 'L2:C10.R3.delayed_at_most_once']),
     "C11": plan(Q11, scale(Q11, 40),
                 "an invocation needed more virtual time than the configured timeout",
                 ["C11.R1.below_limit_completes", "C11.R2.above_limit_abandoned", "C11.R2.caller_gets_error", "C11.R3.continues_after_timeout",
@@ -112,7 +114,8 @@ PLANS = {
     "C15": plan(Q15, scale(Q15, 40),
                 "a context operation, weak upgrade or timer was observed while neither an Addr nor an OwningAddr was alive",
                 ["C15.R1.ctx_stop_ok", "C15.R2.ctx_restart_ok", "C15.R3.timers_keep_firing", "C15.R4.upgrade_while_strong",
-                 "C15.R5.same_actor_through_conversions"]),
+                 "C15.R5.same_actor_through_conversions"],
+                mt=[('kinds', 480)], mt_required=['L2:C15.R1.ctx_stop_ok', 'L2:C15.R4.upgrade_while_strong', 'L2:C15.R5.same_actor_through_conversions']),
     "C06": plan(Q06, scale(Q06, 40),
                 "a fault was injected and hit (every run except the fault-free base run of each program)",
                 ["C06.R1.ops_resolved", "C06.R1.later_ops_err", "C06.R1.pending_ops_err", "C06.R2.await_err", "C06.R2.join_none",
